@@ -53,6 +53,12 @@ def run_all(ids, tier, head):
             continue
         t0 = time.time()
         cross = {}
+        # the evidence files describe runs on the unchanged tree: keep them out of these runs' reach
+        saved = {}
+        for xp in [pid] + list(meta.get("cross_checks", [])):
+            ep = os.path.join(VERIF, "evidence", xp + ".json")
+            if os.path.exists(ep):
+                saved[ep] = open(ep, "rb").read()
         try:
             if not os.environ.get("SEEDED_CROSS_ONLY"):
                 c = sh([os.path.join(VERIF, "bin", "check"), pid, "--tier", tier], cwd=VERIF, env=dict(os.environ, VERIF_STALL="150"))
@@ -69,6 +75,8 @@ def run_all(ids, tier, head):
         finally:
             sh(["git", "-C", REPO, "checkout", "--", "."])
             sh(["git", "-C", REPO, "clean", "-fdq"])
+            for ep, data in saved.items():
+                open(ep, "wb").write(data)
         if cross:
             meta.setdefault("checks", {})[tier + ":cross"] = cross
             json.dump(meta, open(mp, "w"), indent=1)
